@@ -129,8 +129,9 @@ structure Good (t : Token) (fin : Nat) (f : FloatIn) : Prop where
   trunc_big : f.trunc = true → 10 ^ 16 ≤ f.man
   acc : ∃ (k : Nat) (ev' : Int),
       f.man * 10 ^ k ≤ t.mantissa ∧ t.mantissa < (f.man + 1) * 10 ^ k ∧ (f.trunc = false → k = 0) ∧
-      f.exp10 = ev' - (fracLen t : Int) + k ∧
-      ((expVal t.exp).natAbs < 100000 → ev' = expVal t.exp) ∧ ev'.natAbs < 100000 ∧ ExpSat ev' (expVal t.exp)
+      f.exp10 = (if t.exp.isSome then clampExp10 (ev' - (fracLen t : Int) + k) else ev' - (fracLen t : Int) + k) ∧
+      ((expVal t.exp).natAbs < 10000000000000000 → ev' = expVal t.exp) ∧ ev'.natAbs < 10000000000000000 ∧
+      ExpSat ev' (expVal t.exp)
 
 theorem Good.intro' (t : Token) (fin : Nat) (f : FloatIn) (P : Nat) (ev' : Int)
     (hnext : f.next = fin) (hneg : f.neg = t.neg)
@@ -138,8 +139,9 @@ theorem Good.intro' (t : Token) (fin : Nat) (f : FloatIn) (P : Nat) (ev' : Int)
     (hman : f.man = digitsVal ((allDigits t).take P))
     (hlt : f.man < 10 ^ 19) (hbig : f.trunc = true → 10 ^ 16 ≤ f.man)
     (htr : f.trunc = false → P = (allDigits t).length)
-    (hexp : f.exp10 = ev' - (fracLen t : Int) + (((allDigits t).length - P : Nat) : Int))
-    (hev : (expVal t.exp).natAbs < 100000 → ev' = expVal t.exp) (hev2 : ev'.natAbs < 100000)
+    (hexp : f.exp10 = (if t.exp.isSome then clampExp10 (ev' - (fracLen t : Int) + (((allDigits t).length - P : Nat) : Int))
+      else ev' - (fracLen t : Int) + (((allDigits t).length - P : Nat) : Int)))
+    (hev : (expVal t.exp).natAbs < 10000000000000000 → ev' = expVal t.exp) (hev2 : ev'.natAbs < 10000000000000000)
     (hev3 : ExpSat ev' (expVal t.exp)) : Good t fin f := by
   have hb := prefix_bound (allDigits t) hall P hP
   refine ⟨hnext, hneg, hlt, hbig, (allDigits t).length - P, ev', ?_, ?_, ?_, hexp, hev, hev2, hev3⟩
@@ -284,9 +286,15 @@ theorem fract_outcome (neg : Bool) (ids pre s : List Nat) (i : Nat) (m : Mant) (
     rw [hmt] at htr'
     simp only [Bool.or_eq_false_iff, decide_eq_false_iff_not] at htr'
     rw [hall, List.length_append]; omega
-  · show m.exp10 - (((i + k : Nat) : Int) - exp10S) + ev' = _
-    rw [hall, hfl, hme, List.length_append, hi]
-    omega
+  · have hcore : m.exp10 - (((i + k : Nat) : Int) - exp10S) + ev'
+        = ev' - (fracLen { neg := neg, intDigits := ids, fracDigits := some (pre ++ ds), exp := ex } : Nat)
+          + (((allDigits { neg := neg, intDigits := ids, fracDigits := some (pre ++ ds), exp := ex }).length
+              - (PA + k) : Nat) : Int) := by
+      rw [hall, hfl, hme, List.length_append, hi]
+      omega
+    show (if ex.isSome = true then clampExp10 (m.exp10 - (((i + k : Nat) : Int) - exp10S) + ev')
+      else m.exp10 - (((i + k : Nat) : Int) - exp10S) + ev') = _
+    rw [hcore]
   · exact hev
   · exact hev2
   · exact hev3
@@ -482,8 +490,13 @@ theorem afterInt_e (buf : List Nat) (neg : Bool) (c0 : Nat) (r0 s2 : List Nat) (
     have htr' : decide (19 < ids.length) = false := htr
     simp only [decide_eq_false_iff_not] at htr'
     rw [hallD]; omega
-  · show ((ids.length - 19 : Nat) : Int) + ev' = _
-    rw [hallD, hfl]; omega
+  · have hcore : ((ids.length - 19 : Nat) : Int) + ev'
+        = ev' - (fracLen { neg := neg, intDigits := ids, fracDigits := none, exp := ex } : Nat)
+          + (((allDigits { neg := neg, intDigits := ids, fracDigits := none, exp := ex }).length - PA : Nat) : Int) := by
+      rw [hallD, hfl]; omega
+    show (if ex.isSome = true then clampExp10 (((ids.length - 19 : Nat) : Int) + ev')
+      else ((ids.length - 19 : Nat) : Int) + ev') = _
+    rw [hcore]
   · exact hev
   · exact hev2
   · exact hev3
